@@ -46,6 +46,9 @@ def _clean_annotation(annotation: Optional[str]) -> Optional[str]:
     annotation = annotation.replace(
         "%", "percent"
     )  # SQL alchemy doesn't like these in comments
+    annotation = annotation.replace(
+        "${", "$ {"
+    )  # Spark substitutes variable references in the whole query text, comments included
     return annotation.strip()
 
 
